@@ -32,8 +32,20 @@ class EmitterModel:
     """ghost event log of OpenFilterLineage as seen from the main thread (the heartbeat thread's RUNNING*/COMPLETE are owed events, see C18)"""
     @staticmethod
     def site(ex):
+        """call site of an emit: enclosing real function + ordinal of this call among the same-named calls of that function (line-number independent)"""
         st = ex.__dict__.get('fn_stack', [])
-        return st[-1] if st else '?'
+        fn = st[-1] if st else '?'
+        node = ex.__dict__.get('cur_call')
+        if node is None or fn == '?':
+            return fn
+        try:
+            fdef = extract.load(FILTER).find('Filter.' + fn)
+        except KeyError:
+            return fn
+        attr = node.func.attr if isinstance(node.func, ast.Attribute) else None
+        same = sorted([(n.lineno, n.col_offset) for n in ast.walk(fdef) if isinstance(n, ast.Call) and isinstance(n.func, ast.Attribute) and n.func.attr == attr])
+        pos = (node.lineno, node.col_offset)
+        return f'{fn}.{"abcdefghijklmnop"[same.index(pos)]}' if pos in same and len(same) > 1 else fn
 
     @staticmethod
     def m_emit_start(ex, o, facets=None):
